@@ -10,6 +10,9 @@
   oracle runs for now (see DESIGN.md).
 -/
 import AferoVerif.Model.Cow
+import AferoVerif.Proofs.CowContent
+import AferoVerif.Proofs.Reach
+import AferoVerif.Props.C02
 namespace AferoVerif.C06
 open AferoVerif
 
@@ -338,5 +341,54 @@ theorem readdir_first_is_page (s : Layers) (u : UFile) (c : Int) (h : u.off = 0)
   · simp [hc, h]
   · simp only [hc, if_false]
     split <;> simp_all
+
+/-! ### content-preserving copy-up -/
+
+/-- **copy-up keeps the content.** Opening a base-only regular file through the union with
+    write-access flags (no O_TRUNC, no O_EXCL) and writing `b` at offset `off` through the returned
+    handle succeeds; the overlay then holds, under that name, the base's bytes with exactly that
+    range replaced (`writeS`), and the base is unchanged. The overlay may be any state in which
+    names lead to allocated objects — which every reachable state is (`overlay_reachable_ok`). -/
+theorem copyup_patch_keeps_bytes (c : Cow) (name : Str) (flag perm bo : Nat) (b : Bytes) (off : Nat)
+    (hbase : c.isBaseFile (keyOfStr name) = true) (hbo : c.s.b.lookup (keyOfStr name) = some bo)
+    (hfile : (c.s.b.obj bo).dir = false) (hr : MemFs.InRange c.s.l)
+    (hw : flag &&& cowWriteMask ≠ 0) (hx : flag &&& O_EXCL = 0) (ht : flag &&& O_TRUNC = 0)
+    (hacc : flag &&& (O_WRONLY ||| O_RDWR) ≠ 0) (hb : b ≠ []) :
+    ∃ h lf, (c.openFile name flag perm).2 = .handle h none ∧
+      ((c.openFile name flag perm).1.step (.hWriteAt h b off)).2 = .file (.n b.length none) ∧
+      ((c.openFile name flag perm).1.step (.hWriteAt h b off)).1.s.l.lookup (keyOfStr name) = some lf ∧
+      (((c.openFile name flag perm).1.step (.hWriteAt h b off)).1.s.l.obj lf).data = writeS (c.s.b.obj bo).data off b ∧
+      ((c.openFile name flag perm).1.step (.hWriteAt h b off)).1.s.b = c.s.b :=
+  cow_patch_keeps_bytes c name flag perm bo b off hbase hbo hfile hr hw hx ht hacc hb
+
+/-- **modifying part of a base-only file keeps all its other bytes**: every byte of the base file
+    before the written range and after it is still there -/
+theorem patch_other_bytes_kept (d : Bytes) (off : Nat) (b : Bytes) (i : Nat) (hi : i < d.length) :
+    (i < off → (writeS d off b)[i]? = d[i]?) ∧ (off + b.length ≤ i → (writeS d off b)[i]? = d[i]?) :=
+  ⟨fun h => by rw [C02.writeS_get_before d off b i h]; simp [hi], fun h => C02.writeS_get_after d off b i h⟩
+
+/-- the overlay of any history satisfies the hypothesis of `copyup_patch_keeps_bytes` -/
+theorem overlay_reachable_ok (ops : List Op) : MemFs.InRange (MemFs.run MemFs.init ops) :=
+  MemFs.reachable_inRange ops
+
+/-- a whole copy (Chmod / Chtimes / Chown of a base-only file, or the copy before a write-open):
+    the overlay's copy is byte-identical and carries the base's modification time -/
+theorem copyup_identical (c : Cow) (name : Str) (bo : Nat)
+    (hbase : c.isBaseFile (keyOfStr name) = true) (hbo : c.s.b.lookup (keyOfStr name) = some bo)
+    (hfile : (c.s.b.obj bo).dir = false) (hr : MemFs.InRange c.s.l) :
+    (c.copyUpIfBase name).2 = none ∧ (c.copyUpIfBase name).1.s.b = c.s.b ∧
+    ∃ lf, (c.copyUpIfBase name).1.s.l.lookup (keyOfStr name) = some lf ∧
+      ((c.copyUpIfBase name).1.s.l.obj lf).data = (c.s.b.obj bo).data ∧
+      ((c.copyUpIfBase name).1.s.l.obj lf).mtime = (c.s.b.obj bo).mtime := by
+  obtain ⟨a, b, _, _, lf, d, e, f⟩ := copyUpIfBase_content c name bo hbase hbo hfile hr
+  exact ⟨a, b, lf, d, e, f⟩
+
+/-! non-vacuity: a base holding /f = "hello", an empty overlay, open read-write, patch 2 bytes at 1 -/
+def baseF : MemFs := { (MemFs.init.step (.create "/f".toList)).1.step (.hWrite 0 [104, 101, 108, 108, 111]) |>.1 with handles := [] }
+def cowF : Cow := { s := { b := baseF, l := MemFs.init }, hs := [] }
+example : cowF.isBaseFile (keyOfStr "/f".toList) = true ∧ baseF.lookup (keyOfStr "/f".toList) = some 1 ∧
+    (baseF.obj 1).dir = false ∧ (baseF.obj 1).data = [104, 101, 108, 108, 111] := by decide
+example : MemFs.InRange MemFs.init := MemFs.inRange_init
+example : writeS [104, 101, 108, 108, 111] 1 [88, 89] = [104, 88, 89, 108, 111] := by decide
 
 end AferoVerif.C06
